@@ -52,3 +52,10 @@ claim('C04', 'model evaluation of System.supersize (symbolic positions, tagged p
       'Decides structural necessary conditions: supersize yields each atom at each lattice translation of the replication box exactly once with its own property row, vectors×m and origin+lo·V; the eight centering table pairs are inverse with determinants (1,2,2,2,2,4,3,3) '
       'and the converter\'s basis positions are their lattice points; converters rotate by those tables; rotate() refuses non-integer/zero-volume input, bounds by (min-1,max+1) over eight corners, constructs only after the expected-count test, keeps [0,1) atoms, '
       'and introduces no net translation; operands are not written. Which atoms a concrete floating-point cell keeps is not decided. One known finding (far-from-zero origin refused).', 'DESIGN.md §6 C04')
+
+claim('C07', 'model evaluation of the three writers over symbolic systems with reconstruction of the written text (skeleton + values) against the published line formats; column tables extracted per atom_style and typed by physical dimension against the LAMMPS reference; data-frame model of the table writers; API-compatibility rule',
+      'Decides structural necessary conditions: for all 8 periodicity settings and orthogonal / partly / fully tilted cells the data-file, dump-file and POSCAR writers, evaluated on model systems, emit exactly the documented '
+      'lines (counts, bounds from the same-named getters in the requested length unit, tilt line/columns, bounding box by the LAMMPS min/max rule, pp/fm flags, image-flag columns iff a flag is non-zero, Velocities iff present, '
+      'scale factor on lattice and Cartesian coordinates, per-type counts and grouping); wrap precedes writing; the snippet names the resolved units/atom_style/boundary flags; per-style column tables equal the LAMMPS reference '
+      'with units of each column\'s own quantity from the requested style (also hybrid); table writers output each component divided by its unit, box-relative when scaled, ids 1..N / unique own ids. '
+      'That printed decimals equal the values to the printed precision is not decided. One known finding (smd lacks x0 y0 z0).', 'DESIGN.md §6 C07')
